@@ -145,6 +145,94 @@ func runProp(t *testing.T, prop string) {
 	})
 }
 
+const ruleBounded = " DEVIATION-BOUNDED ENUMERATION PASS: rapid generates SMALL scenarios (1..2 subscribers, 1..2 publishers with 1..2 messages, at most one cancel, 0..2 shutdowns, faults as above); for each scenario the controlled scheduler executes the default schedule (always option 0) and then EVERY schedule that deviates from it at no more than K steps (K=2 quick, 3 thorough; every step x every alternative option, discovered by depth-first re-execution). Counters report executions, scenarios enumerated completely and scenarios cut off at the execution cap; a scenario counts as non-trivial when its enumeration completed and visited at least 50 distinct schedules."
+
+func maxDev() int {
+	if stats.Tier() == "thorough" {
+		return stats.EnvInt("VERIF_MAXDEV", 3)
+	}
+	return stats.EnvInt("VERIF_MAXDEV", 2)
+}
+
+// checkBounded enumerates all schedules of a small scenario with at most K deviations.
+func checkBounded(prop string) func(t *testing.T, c JoeCase) *stats.Verdict {
+	single := checkPropMode(prop, false)
+	return func(t *testing.T, c JoeCase) *stats.Verdict {
+		if len(c.Sc.Dev) > 0 || !c.Sc.DevMode {
+			return single(t, c) // a replayed failure: exactly that schedule
+		}
+		v := &stats.Verdict{Size: len(c.Sc.Subs) + len(c.Sc.Pubs)}
+		K := maxDev()
+		budget := stats.EnvInt("VERIF_ENUM_CAP", 4000)
+		executed, cut := 0, false
+		var fail *stats.Verdict
+		var rec func(devs []Dev, last, depth int)
+		rec = func(devs []Dev, last, depth int) {
+			if fail != nil || cut {
+				return
+			}
+			if executed >= budget {
+				cut = true
+				return
+			}
+			sc := c.Sc
+			sc.Dev = append([]Dev(nil), devs...)
+			ex := runScenario(t, sc)
+			executed++
+			vs, f := check(sc, ex)
+			if !(f.joePanicked && prop != "C06") {
+				for _, x := range vs {
+					if x.Prop == prop {
+						fail = &stats.Verdict{Repro: JoeCase{Sc: sc}}
+						fail.Failf("", "%s\n(found by the deviation-bounded enumeration: deviations %+v from the default schedule)\nreplayer=%s cap=%d auto=%v steps=%d\ntrace: %v\nlog:\n%s", x.Msg, devs, sc.Replayer, sc.Cap, sc.Auto, ex.steps, ex.trace, fmtLog(ex.log))
+						return
+					}
+				}
+				classify(prop, v, sc, ex, f)
+			}
+			if depth == K {
+				return
+			}
+			for s := last + 1; s < len(ex.optCounts); s++ {
+				for alt := 1; alt < ex.optCounts[s]; alt++ {
+					rec(append(devs, Dev{s, alt}), s, depth+1)
+				}
+			}
+		}
+		rec(nil, -1, 0)
+		v.Count("enumerated_executions", int64(executed))
+		if fail != nil {
+			fail.Counters = v.Counters
+			return fail
+		}
+		if cut {
+			v.Count("scenarios_cut_at_execution_cap", 1)
+			v.NonTrivial = false
+		} else {
+			v.Count("scenarios_enumerated_completely", 1)
+			v.Class(fmt.Sprintf("complete-enumeration/K=%d", K))
+			v.NonTrivial = executed >= 50
+		}
+		return v
+	}
+}
+
+func runPropBounded(t *testing.T, prop string) {
+	gen := genSmallScenario(profiles[prop])
+	stats.Run(t, stats.Prop[JoeCase]{
+		ID:    prop,
+		Rule:  ruleCommon + ruleBounded + nonTrivialRules[prop],
+		Gen:   func(rt *rapid.T) JoeCase { return JoeCase{Sc: gen(rt)} },
+		Check: checkBounded(prop),
+	})
+}
+
+func TestC03Bounded(t *testing.T) { runPropBounded(t, "C03") }
+func TestC04Bounded(t *testing.T) { runPropBounded(t, "C04") }
+func TestC06Bounded(t *testing.T) { runPropBounded(t, "C06") }
+func TestC07Bounded(t *testing.T) { runPropBounded(t, "C07") }
+func TestC17Bounded(t *testing.T) { runPropBounded(t, "C17") }
+
 const ruleFree = " FREE-RUNNING PASS: the same scenarios and the same checker on the real scheduler (inside a bubble for exact quiescence, built with -race, at the GOMAXPROCS values given by -test.cpu): nothing parks, actors are started in schedule order and the hooks only yield/spin as told by the schedule."
 
 func runPropFree(t *testing.T, prop string) {
